@@ -115,7 +115,26 @@ def run(ctx):
                 exprs = sorted({member_text(m) for c, _ in conds for m in A.walk(c) if m.get("kind") == "MemberExpr" and m.get("referencedMemberDecl") in sentinel})
                 me = member_text(tgt) if is_sent else None
                 witness = None
-                if not exprs:
+                # plain local variables in the conditions are free (both truth values are tried) unless they are
+                # assigned inside the loop that encloses the decrement: then the renumbering depends on the scan position
+                free_ids = sorted({y["referencedDecl"]["id"] for c, _ in conds for y in A.walk(c) if y.get("kind") == "DeclRefExpr" and
+                                   y["referencedDecl"].get("kind") == "VarDecl" and "bool" in A.qtype(y)})
+                loop = None
+                for p2 in u.ancestors(x):
+                    if p2.get("kind") in ("ForStmt", "WhileStmt", "DoStmt"):
+                        loop = p2
+                        break
+                carried = []
+                if loop is not None:
+                    for y in A.walk(loop):
+                        if y.get("kind") in ("BinaryOperator", "CompoundAssignOperator") and y.get("opcode", "").endswith("=") and y.get("opcode") not in ("==", "!=", "<=", ">=") and A.ref_id(A.kids(y)[0]) in free_ids:
+                            carried.append(u.by_id[A.ref_id(A.kids(y)[0])].get("name"))
+                if carried and is_sent:
+                    witness = {"reason": "the renumbering of other slots is conditioned on `%s`, which the same loop over the slots assigns: only slots visited after that point are renumbered" % carried[0]}
+                    exprs = exprs or ["-"]
+                if witness is not None:
+                    pass
+                elif not exprs:
                     witness = {"reason": "no enclosing condition mentions a queue position"}
                 else:
                     for vals in itertools.product((-1, 1, 2, 3), repeat=len(exprs)):
@@ -126,7 +145,12 @@ def run(ctx):
                                 return asg[member_text(n)]
                             return NotImplemented
                         try:
-                            sat = all(bool(FD.Eval(node_hook=hook).ev(c)) == pol for c, pol in conds)
+                            sat = False
+                            for fv in itertools.product((0, 1), repeat=len(free_ids)):
+                                env = dict(zip(free_ids, fv))
+                                if all(bool(FD.Eval(env=env, node_hook=hook).ev(c)) == pol for c, pol in conds):
+                                    sat = True
+                                    break
                         except FD.Unknown as e:
                             raise AnalysisBroken("R19.5: condition not evaluable in %s: %s" % (q, e))
                         if sat and any(v == -1 for k, v in asg.items() if k != me):
